@@ -377,6 +377,12 @@ func resolvePathToFieldDescriptors(
 		part := remaining
 		if i := strings.IndexByte(remaining, '.'); i >= 0 {
 			part, remaining = remaining[:i], remaining[i+1:]
+			if remaining == "" {
+				// A trailing dot: there is no element left to resolve, and the
+				// result must not end in a nil descriptor.
+				return nil, fmt.Errorf("%w in field path %q: it ends in an empty element",
+					errUnknownField, path)
+			}
 		} else {
 			remaining = ""
 		}
